@@ -523,6 +523,14 @@ func (c *SpecCtx) selector(e *ESel) SVal {
 				if p := c.findPkg(id.Name); p != nil {
 					obj := p.Types.Scope().Lookup(e.Name)
 					if obj == nil {
+						// a ghost variable of another package
+						if gv := g.eng.specs.findGhost(p.PkgPath, e.Name); gv != nil {
+							ty, err := resolveTypeIn(g, p, gv.Type)
+							if err != nil {
+								return c.fail("%v", err)
+							}
+							return SVal{T: g.ghost(c.st, gv, c.sortOfTy(ty)), Ty: ty}
+						}
 						return c.fail("%s: %s.%s not found", c.where, id.Name, e.Name)
 					}
 					return c.object(obj)
@@ -802,6 +810,36 @@ func (c *SpecCtx) callExpr(e *ECall) SVal {
 			return c.fail("%s: bs() of non-slice", c.where)
 		}
 		return SVal{T: g.absBytes(c.st, x.T), Ty: tyBSeq}
+	case "crc32c":
+		// crc32c(x): the (uninterpreted) CRC-32 of the byte contents of x, the same
+		// function the model of hash/crc32.Checksum and of the pooled hashers uses
+		if !need(1) {
+			return SVal{}
+		}
+		x := argv(0)
+		xs := x.T
+		if x.Ty != tyBSeq {
+			xs = g.absBytes(c.st, xs)
+		}
+		g.useByteSeq()
+		g.declareFun("crc32c", []string{SBSeq}, bvSort(32))
+		return SVal{T: app(bvSort(32), "crc32c", xs), Ty: types.Typ[types.Uint32]}
+	case "be32":
+		// be32(x): big-endian uint32 in the first four bytes of x (meaningful when len(x) >= 4)
+		if !need(1) {
+			return SVal{}
+		}
+		x := argv(0)
+		var res Term
+		for i := 0; i < 4; i++ {
+			b := g.byteAt(c.st, x.T, bv64(uint64(i)))
+			if i == 0 {
+				res = b
+			} else {
+				res = concatBV(res, b)
+			}
+		}
+		return SVal{T: res, Ty: types.Typ[types.Uint32]}
 	case "bcmp":
 		if !need(2) {
 			return SVal{}
@@ -828,6 +866,19 @@ func (c *SpecCtx) callExpr(e *ECall) SVal {
 		g.noteAbsHeap("$beq-1")
 		g.noteAbsHeap("$beq-2")
 		return SVal{T: fake.strEq(c.st, x.T, y.T), Ty: tyBoolT}
+	case "dynptr":
+		// dynptr(i): the pointer held by interface value i (its dynamic value when that is a
+		// pointer); `dynptr(r) != nil` excludes typed-nil interface values
+		if !need(1) {
+			return SVal{}
+		}
+		{
+			x := argv(0)
+			if x.T.Sort != SIface {
+				return c.fail("%s: dynptr() of non-interface", c.where)
+			}
+			return SVal{T: app(SLoc, "iface_loc", x.T), Ty: types.Typ[types.UnsafePointer]}
+		}
 	case "isnil":
 		if !need(1) {
 			return SVal{}
